@@ -23,6 +23,9 @@
 (***************************************************************************)
 EXTENDS ErgoOps
 
+\* the k-th fresh id of a command (observed commands that created nothing carry none)
+NewId(c, k) == IF k <= Len(c.newids) THEN c.newids[k] ELSE "new" \o ToString(k)
+
 Reply0 == [kind |-> "", id |-> "", state |-> "", claim |-> "", epic |-> "",
            ids |-> <<>>, edges |-> {}, pruned |-> {}, status |-> ""]
 
@@ -74,7 +77,7 @@ RunNewTask(log, now, c) ==
       epic   == IF Fld(c, c.epic) = ABSENT THEN "" ELSE c.epic
       u      == UpdOf(c)
       valid  == IF json THEN JsonFieldsOK(c, TRUE) ELSE (c.title # ABSENT /\ ~Blank(c.title))
-      id     == c.newids[1]
+      id     == NewId(c, 1)
       d      == DecideCreate(Replay(log), "task", epic, title, body, id, now + 1)
       l1     == log \o d.events
       follow == IF json THEN (c.state # ABSENT \/ c.claim # ABSENT \/ c.rpath # ABSENT) /\ (HasResult(c) \/ ~EmptyUpd(u))
@@ -97,7 +100,7 @@ RunNewEpic(log, now, c) ==
       body  == IF Fld(c, c.body) = ABSENT THEN "" ELSE c.body
       valid == IF json THEN (c.title # ABSENT /\ ~Blank(c.title)) /\ (c.body # ABSENT => ~Blank(c.body))
                ELSE (c.title # ABSENT /\ ~Blank(c.title))
-      id    == c.newids[1]
+      id    == NewId(c, 1)
       d     == DecideCreate(Replay(log), "epic", "", title, body, id, now + 1)
   IN IF ~valid \/ ~d.ok THEN Rejected(log, now)
      ELSE Res(0, log \o d.events, now + 1, [Reply0 EXCEPT !.kind = "epic", !.id = id, !.state = "todo"])
@@ -171,7 +174,7 @@ RunCompact(log, now, c) ==
      ELSE Res(0, CompactLog(g, now + 1), now + 1, [Reply0 EXCEPT !.kind = "compact", !.status = "ok"])
 
 RunPlan(log, now, c) ==
-  LET d == DecidePlan(Replay(log), c.doc, c.newids, now + 1)
+  LET d == DecidePlan(Replay(log), c.doc, [k \in 1..(Len(c.doc.tasks) + 1) |-> NewId(c, k)], now + 1)
   IN IF ~d.ok THEN Rejected(log, now)
      ELSE Res(0, log \o d.events, now + PlanSpan(c.doc),
               [Reply0 EXCEPT !.kind = "plan", !.id = d.out.epic, !.ids = d.out.tasks, !.edges = d.out.edges])
